@@ -46,7 +46,10 @@ FAULTS = [
     "time:start-equals-stop", "release:empty-file", "release:position-columns-misspelt",
     "subgrid:i1-far-beyond", "subgrid:j1-far-beyond", "subgrid:i0-far-negative", "release:all-before-start+stray-frequency",
     "forcing:ends-early+other-time-units-in-second-file", "forcing:starts-late+other-time-units-in-second-file",
+    "release:lon-lat-only+grid-without-ll2xy",
 ]
+NOLL = "release:lon-lat-only+grid-without-ll2xy"
+NOLL_CONTROL = "control:xy-release+grid-without-ll2xy"  # the same plug-in grid with an X/Y release file: must run
 
 
 def bounds(tier, seed):
@@ -151,9 +154,11 @@ def build(base, fault, d):
         cols = ["release_time", "lon", "Z"]
     elif fault == "release:position-columns-misspelt":
         cols = ["release_time", "x", "y", "Z"]
+    elif fault == NOLL:  # geographic positions only, on a grid that has no geographic mapping: no position can be derived
+        cols = ["release_time", "lon", "lat", "Z"]
     lines = [" ".join(cols)]
     for k, s in enumerate(rows_slots):
-        vals = dict(release_time=world.iso(t(s)), X=3.3 + k, Y=3.5, Z=5.0, lon=5.03, x=3.3, y=3.5)
+        vals = dict(release_time=world.iso(t(s)), X=3.3 + k, Y=3.5, Z=5.0, lon=5.03, lat=3.25, x=3.3, y=3.5)
         lines.append(" ".join(str(vals[c]) for c in cols))
     if fault == "release:empty-file":
         lines = lines[:1]
@@ -222,6 +227,9 @@ def build(base, fault, d):
         conf["grid"]["subgrid"] = [-19, 9, 1, 7]
     elif fault == "time:start-equals-stop":
         conf["time"]["stop"] = conf["time"]["start"]
+    if fault in (NOLL, NOLL_CONTROL):
+        conf["grid"] = dict(module=drive.plug("agrid_noll.py"), filename="none", imax=W.imax, jmax=W.jmax, dx=800.0, h=30.0)
+        conf["forcing"] = dict(module=drive.plug("aforce.py"), filename="none", field="const", params=dict(a=0.0002, b=0.00005, L=100.0))
     path = d / "ladim.yaml"
     if fault != "config:file-missing":
         path.write_text(yaml.safe_dump(world.clean(conf), sort_keys=False))
@@ -262,7 +270,10 @@ def run_subprocess(base):
 
     b = {k: base[k] for k in ("rev", "multi", "cont")}
     viols, n = [], 0
-    for fault in ["none"] + list(base["faults"]):
+    todo = ["none"]
+    for f in base["faults"]:
+        todo += [NOLL_CONTROL, f] if f == NOLL else [f]
+    for fault in todo:
         if fault.startswith("release:all-before-start") and b["cont"]:
             continue
         d = util.scratch("c20s")
@@ -284,7 +295,7 @@ def run_subprocess(base):
         started = (d / "loop_started").exists()
         c = dict(b, subprocess=True, faults=[fault])
         tag = f"[python -m ladim] base={b} fault={fault}"
-        if fault == "none":
+        if fault in ("none", NOLL_CONTROL):
             if r.returncode != 0 or nrec < 2 or not started:
                 viols.append(util.viol("base-scenario-broken", f"{tag}: exit status {r.returncode}, records {nrec}, loop started {started}: {r.stderr[-300:]}", c))
                 break
@@ -317,6 +328,12 @@ def run_case(base):
             continue
         if fault.startswith("release:all-before-start") and b["cont"]:
             continue  # not a fault: a continuous release keeps releasing the rows of the latest file time before start
+        if fault == NOLL:
+            err, started, nrec = run_one(b, NOLL_CONTROL, dshared)
+            n += 1
+            if err is not None or nrec < 2 or not started:
+                viols.append(util.viol("base-scenario-broken", f"control {NOLL_CONTROL} on {b} did not run: error={err} records={nrec} loop_started={started}", dict(b, only=fault)))
+                continue
         err, started, nrec = run_one(b, fault, dshared)
         n += 1
         nt += 1
